@@ -103,8 +103,6 @@ def devs (op : String) (how : String) (r0 : Recv) (rm : Recv) (args : List Val) 
     ("call_undefined_this", how == "C" && r0 == .val .undef),
     ("lone_surrogate", loneSurrogate r0),
     ("charAt_surrogate", ((op == "charAt" || op == "index") && optSurr posUnit) || (op == "desc" && optSurr ownUnit)),
-    ("index_not_enumerable", (op == "desc" || op == "isenum") && ownUnit.isSome),
-    ("define_index_shadow", op == "define" && ownUnit.isSome && ownUnit != some 120),
     ("case_special", (op == "toLowerCase" && (U value).any (fun u => !isSurr u && Spec.lowerUnit u != [goLower u]))
         || (op == "toUpperCase" && (U value).any (fun u => !isSurr u && Spec.upperUnit u != [goUpper u]))),
     ("case_astral", (op == "toLowerCase" && (decodeRunes value).any (fun c => decide (c ≥ 0x10000) && goLower c != c))
